@@ -555,6 +555,41 @@ func (p *pkgInfo) analyse(fi *funcInfo, apiTables map[string]bool) {
 		}
 		return true
 	})
+	// a read-modify-write of a self-synchronising (atomic) field split over several calls is not atomic:
+	// Load()/CompareAndSwap-free update sequences such as  v := x.f.Load(); x.f.Add(1)  or  x.f.Store(x.f.Load()+1)
+	atomicOps := map[string]map[string]bool{}
+	ast.Inspect(fi.decl.Body, func(n ast.Node) bool {
+		c, ok := n.(*ast.CallExpr)
+		if !ok {
+			return true
+		}
+		sel, ok := c.Fun.(*ast.SelectorExpr)
+		if !ok {
+			return true
+		}
+		fld, ok := sel.X.(*ast.SelectorExpr)
+		if !ok {
+			return true
+		}
+		isAtomic := false
+		for _, t := range p.fieldTypes(fld.Sel.Name) {
+			if strings.HasPrefix(t, "atomic.") {
+				isAtomic = true
+			}
+		}
+		if id, _, _, _ := p.root(fld.X); isAtomic && id != "" && li.tainted[id] {
+			if atomicOps[fld.Sel.Name] == nil {
+				atomicOps[fld.Sel.Name] = map[string]bool{}
+			}
+			atomicOps[fld.Sel.Name][sel.Sel.Name] = true
+		}
+		return true
+	})
+	for _, ops := range atomicOps {
+		if ops["Load"] && (ops["Add"] || ops["Store"] || ops["Swap"]) {
+			fi.reads, fi.writes = true, true // an unsynchronised update of table state
+		}
+	}
 	// what the results may alias
 	var aliasOf func(e ast.Expr, depth int)
 	aliasOf = func(e ast.Expr, depth int) {
